@@ -97,6 +97,14 @@ let () =
              | FenOk p ->
                let legal = legalOf p in
                out ("S" ^ String.concat "" (List.map (fun h -> " " ^ mv_num (stringToMove p legal (str_of_hex h))) (List.tl args))))
+          | "scan" ->
+            out line;
+            let tk = function
+              | TString s -> (0, s) | TInteger s -> (1, s) | TPeriod -> (2, []) | TAsterisk -> (3, [])
+              | TLBracket -> (4, []) | TRBracket -> (5, []) | TLParen -> (6, []) | TRParen -> (7, [])
+              | TNag s -> (8, s) | TSymbol s -> (9, s) | TComment s -> (10, s) in
+            out ("K" ^ String.concat "" (List.map (fun t -> let (k, s) = tk t in Printf.sprintf " %d:%s" k (hex_of_str s))
+                                           (scan (str_of_hex (List.hd args)))))
           | "cnt" ->
             (* number of pseudo-legal moves of the position by the FIDE Spec (the C++ MoveList holds 256) *)
             (match readFEN zk (str_of_hex (List.hd args)) with
